@@ -3,6 +3,7 @@ package main
 // Models of library functions. Everything not listed is havoc'd by callStatic.
 
 import (
+	"fmt"
 	"go/ast"
 	"go/token"
 	"go/types"
@@ -297,6 +298,69 @@ func (x *Exec) assumeTimeRange(st *State, t *Term) {
 	x.assume(st, x.b.And(x.b.Le(lo, t, true), x.b.Lt(t, hi, true)))
 }
 
+// mutexArr: the ghost lock state of mutexes other than the store lock, indexed
+// by the mutex's address; all free when the function under verification starts
+// (callers do not hold them).
+func (x *Exec) mutexArr(st *State) *Term {
+	key := "ghost.mutexHeld"
+	if _, seen := st.heap[key]; !seen {
+		arr0 := x.heapArr(st, key, BoolSort)
+		// a function whose own precondition speaks about mutexes (mutexheld(...)) states
+		// what it needs itself; for every other function the callers hold none
+		own := false
+		if x.contract != nil {
+			for _, r := range x.contract.Requires {
+				if strings.Contains(r.Src, "mutexheld(") {
+					own = true
+				}
+			}
+		}
+		if !own {
+			x.assume(st, x.b.Forall([]*Term{x.b.Var("q!mx", RefSort)}, x.b.Not(x.b.Select(arr0, x.b.Var("q!mx", RefSort)))))
+		}
+	}
+	return x.heapArr(st, key, BoolSort)
+}
+
+// guardGlobal: a package-level variable declared "guarded global.NAME by mutex M"
+// (or "by atomic") is read or written by plain code.
+func (x *Exec) guardGlobal(st *State, name string, at ast.Node, write bool) {
+	if x.noGuard > 0 || x.spec > 0 || x.noSafety > 0 || len(x.frames) == 0 {
+		return
+	}
+	c := x.eng.cf.Contracts[x.frame().qual]
+	if c == nil {
+		c = x.contract
+	}
+	if c == nil || !c.GuardsOn {
+		return
+	}
+	for _, g := range x.eng.cf.Guards {
+		if g.Pattern != "global."+name {
+			continue
+		}
+		kind := "read"
+		if write {
+			kind = "write"
+		}
+		var pos token.Pos
+		if at != nil {
+			pos = at.Pos()
+		}
+		var goal *Term
+		switch {
+		case g.Atomic:
+			goal = x.b.False()
+		case g.Mutex != "":
+			goal = x.b.Select(x.mutexArr(st), x.b.Var("globaladdr."+g.Mutex, RefSort))
+		default:
+			goal = x.ghostGlobal(st, g.Ghost, x.eng.cf.Ghosts[g.Ghost]).scalar()
+		}
+		x.guardCount++
+		x.oblige(st, "guard", fmt.Sprintf("guard.%s(global.%s)", kind, name), goal, pos, []string{"C16"})
+	}
+}
+
 // mutexOp: ghost lock state for sync.Mutex values addressed through a struct
 // field; keyed by the address term of the mutex (receiver ref).
 func (x *Exec) mutexOp(st *State, recv *Value, lock bool, at *ast.CallExpr) {
@@ -320,13 +384,7 @@ func (x *Exec) mutexOp(st *State, recv *Value, lock bool, at *ast.CallExpr) {
 		}
 	}
 	key := "ghost.mutexHeld"
-	if _, seen := st.heap[key]; !seen {
-		// mutexes other than the store lock: assumed free when the function
-		// under verification starts (callers do not hold them)
-		arr0 := x.heapArr(st, key, BoolSort)
-		x.assume(st, x.b.Forall([]*Term{x.b.Var("q!mx", RefSort)}, x.b.Not(x.b.Select(arr0, x.b.Var("q!mx", RefSort)))))
-	}
-	arr := x.heapArr(st, key, BoolSort)
+	arr := x.mutexArr(st)
 	held := x.b.Select(arr, ref)
 	if lock {
 		// self-deadlock if already held by this goroutine
